@@ -514,6 +514,8 @@ func (c *ChannelArbitrator) progressStateMachineAfterRestart(bestHeight int32,
 		case StateBroadcastCommit:
 			fallthrough
 		case StateCommitmentBroadcasted:
+			fallthrough
+		case StateContractClosed:
 			switch c.cfg.CloseType {
 
 			case channeldb.CooperativeClose:
